@@ -281,6 +281,18 @@ func runDefects(tier string, seed int64, langs []int) {
 				c[p] = []string{"zzzzzz", "notaword", c[p] + "q", "0", "éé"}[r.intn(5)]
 				recCheck(strings.Join(c, " "), L, Event{"cls": "unknown1"})
 			}
+			// one unknown token of growing size (the kind of error must not depend on how long the stranger is)
+			longs := []int{64, 300, 900, 2000, 9000}
+			if tier == "thorough" && L == int64(seed%10) {
+				longs = append(longs, 70000)
+			} else if tier != "thorough" {
+				longs = []int{64, longs[1+(int(L)+size)%4]}
+			}
+			for _, n := range longs {
+				c := append([]string(nil), ws...)
+				c[r.intn(w)] = strings.Repeat("qz", n/2)
+				recCheck(strings.Join(c, " "), L, Event{"cls": "unknownlong"})
+			}
 			// several unknown tokens
 			for t := 0; t < 4; t++ {
 				c := append([]string(nil), ws...)
